@@ -827,6 +827,8 @@ func (g *gcHist) randWrite() {
 				exp = 1 << 40
 			}
 			g.modify(t, k, g.bigVal(), 0, 0, exp)
+		case r < 5 && g.c.Rng.Intn(2) == 0: // a value-log value carrying the discard-earlier-versions bit
+			g.modify(t, k, g.bigVal(), mDiscard, byte(g.c.Rng.Intn(3)), 0)
 		case r < 5: // exactly at / one below the value threshold
 			v := g.bigVal()[:31+g.c.Rng.Intn(2)]
 			g.modify(t, k, v, 0, byte(g.c.Rng.Intn(3)), 0)
